@@ -207,6 +207,17 @@ def regfile_program(rng):
     st.append("wire seenB : 64; seenB = reg_outputB;")
     st += decoy_banks(rng)
     st = const_enables(rng, st)
+    if rng.random() < 0.4:
+        # the data memory next to the register file, in every configuration: both ports live, a port wired but
+        # switched off by a constant enable, a port partly connected and switched off - whatever happens to the
+        # memory components must not disturb the register file's ports (their relative order least of all)
+        st.append("mem_addr = %s;" % rng.choice(["P_pc", "0x100", "(i10bytes)[16..80]"]))
+        st.append("mem_readbit = %s;" % rng.choice(["0", "1", "FALSE", "(i10bytes)[72..73]"]))
+        cfg = rng.choice(["off", "off", "on", "data", "partial_off"])
+        if cfg != "partial_off":
+            st.append("mem_input = %s;" % rng.choice(["reg_outputA", "P_pc", "0x1234"]))
+        st.append("mem_writebit = %s;" % {"off": rng.choice(["0", "FALSE", "false", "(1 == 2)", "2"]), "on": "1", "data": "(i10bytes)[73..74]",
+                                          "partial_off": rng.choice(["0", "FALSE"])}[cfg])
     rng.shuffle(st)
     return "\n".join(st) + "\n"
 
